@@ -143,7 +143,8 @@ func cmdRun(args []string) int {
 	maxPaths := fs.Int("maxpaths", 0, "path cap per harness (0 = tier default)")
 	noReplay := fs.Bool("noreplay", false, "do not replay counterexamples natively")
 	noEvidence := fs.Bool("noevidence", false, "do not write the evidence file")
-	solver := fs.String("solver", "z3", "z3|z3-new|cvc5")
+	solver := fs.String("solver", "z3", "solver for bit-vector harnesses: z3|z3-new|cvc5")
+	solverInt := fs.String("solver-int", "z3-new", "solver for integer/real harnesses")
 	timeout := fs.Int("timeout", 0, "per-query timeout ms")
 	repo := fs.String("repo", "/repo", "repository")
 	cpuprof := fs.String("cpuprofile", "", "write cpu profile")
@@ -171,7 +172,7 @@ func cmdRun(args []string) int {
 		fmt.Println("ENGINE-ERROR no harness for", *prop)
 		return 2
 	}
-	cfg := Config{Tier: *tier, Workers: *workers, SolverName: *solver, LogDir: *logdir, Verbose: *verbose}
+	cfg := Config{Tier: *tier, Workers: *workers, SolverName: *solver, SolverINT: *solverInt, LogDir: *logdir, Verbose: *verbose}
 	if cfg.Workers == 0 {
 		cfg.Workers = runtime.NumCPU()
 		if cfg.Workers > 16 {
@@ -502,7 +503,7 @@ func writeEvidence(prop, tier string, seed int, rs []*HarnessResult, wall time.D
 			"stubs":                         keys(stubs),
 			"harnesses":                     harn,
 			"queries":                       map[string]int{"total": queries, "sat": sat, "unsat": unsat, "unknown": unknown, "error": serr},
-			"solver":                        cfg.SolverName,
+			"solver":                        "bit-vector harnesses: " + cfg.SolverName + "; integer/real harnesses: " + cfg.SolverINT,
 			"solver_time_s":                 round2(stime.Seconds()),
 			"per_query_timeout_ms":          cfg.TimeoutMs,
 			"undecided":                     undec,
